@@ -81,17 +81,75 @@ Qed.
 
 (* ---------------------------------------------------------------- summary of finalize *)
 
-Lemma finalize_sum k pl s v s' e q : finalize k pl s v = (s', (e, q)) ->
-  made s' = made s /\ ch s' = ch s /\ vw s' = vw s /\
-  (pc s' = None \/
-   exists p p', pc s = Some p /\ pc s' = Some p' /\ (c_l p' = c_l p \/ c_l p' = c_l (norm v)) /\
-                (c_del p = true -> c_del p' = true)).
+Definition pc_sum (v : claim) (p0 p1 : option claim) : Prop :=
+  p1 = None \/
+  exists p p', p0 = Some p /\ p1 = Some p' /\ (c_l p' = c_l p \/ c_l p' = c_l (norm v)) /\
+               (c_del p = true -> c_del p' = true).
+
+Lemma pc_sum_refl v p : pc_sum v p p.
+Proof. destruct p as [c|]; [right; exists c, c; repeat split; auto|left; reflexivity]. Qed.
+
+Lemma unfinalize_sum v pl s r s' e q : unfinalize pl s r = (s', (e, q)) ->
+  made s' = r_made r /\ ch s' = r_ch r /\ vw s' = vw s /\ pc_sum v (r_pc r) (pc s').
 Proof.
-  unfold finalize, unfinalize. intros H. cbv zeta in H.
-  repeat bmh H; inversion H; subst; clear H; simpl;
-    (split; [reflexivity|split; [reflexivity|split; [reflexivity|]]]);
-    try (left; reflexivity);
-    destruct (pc s) as [p0|] eqn:Ep; simpl in *; try (left; reflexivity); try discriminate;
-    try (right; eexists; eexists; split; [reflexivity|split; [reflexivity|split; [first [left; reflexivity|right; reflexivity]|intros; simpl; auto]]]).
-  all: try congruence.
+  unfold unfinalize. intros H.
+  destruct (eff_wr (r_pc r) (f_unfin pl)); injection H as <- _ _; simpl;
+    (split; [reflexivity|split; [reflexivity|split; [reflexivity|]]]); try apply pc_sum_refl.
+  destruct (r_pc r) as [p|]; [|left; reflexivity].
+  destruct (c_del p) eqn:D; [left; reflexivity|].
+  right. exists p, (cl_fin p false). repeat split; simpl; auto. congruence.
+Qed.
+
+Lemma finalize_sum k pl s v s' e q : finalize k pl s v = (s', (e, q)) ->
+  made s' = made s /\ ch s' = ch s /\ vw s' = vw s /\ pc_sum v (pc s) (pc s').
+Proof.
+  unfold finalize. intros H.
+  destruct (negb (c_fin v)).
+  { injection H as <- _ _. repeat split; try reflexivity. apply pc_sum_refl. }
+  set (r := init_rs s (norm v)) in *.
+  assert (Base : forall r1, r_made r1 = made s -> r_ch r1 = ch s -> r_pc r1 = pc s -> forall e1 q1,
+            (state_of r1 s, (e1, q1)) = (s', (e, q)) ->
+            made s' = made s /\ ch s' = ch s /\ vw s' = vw s /\ pc_sum v (pc s) (pc s')).
+  { intros r1 H1 H2 H3 e1 q1 E. injection E as <- _ _. simpl. rewrite H1, H2, H3.
+    repeat split; try reflexivity. apply pc_sum_refl. }
+  assert (Unf : forall r1, r_made r1 = made s -> r_ch r1 = ch s -> pc_sum v (pc s) (r_pc r1) ->
+            unfinalize pl s r1 = (s', (e, q)) ->
+            made s' = made s /\ ch s' = ch s /\ vw s' = vw s /\ pc_sum v (pc s) (pc s')).
+  { intros r1 H1 H2 H3 E. apply (unfinalize_sum v) in E. destruct E as (E1 & E2 & E3 & E4).
+    rewrite E1, E2, H1, H2. repeat split; try reflexivity; try exact E3.
+    destruct E4 as [E4|(p & p' & Ep & Ep' & El & Ed)]; [left; exact E4|].
+    destruct H3 as [H3|(p0 & p1 & Hp0 & Hp1 & Hl & Hd)]; [congruence|].
+    rewrite Hp1 in Ep. injection Ep as <-.
+    right. exists p0, p'. repeat split; auto.
+    destruct El as [El|El]; [rewrite El; exact Hl|right; exact El]. }
+  destruct (match c_r v with RTrue => match_count r | _ => 0%nat end) as [|n0].
+  - (* no nodes listed *)
+    destruct (c_pid v) as [p|]; [|apply (Unf r); try reflexivity; [apply pc_sum_refl|exact H]].
+    destruct (f_pdel_err pl); [eapply Base; [| | |exact H]; reflexivity|].
+    cbv zeta in H.
+    destruct (c_term (r_im (add_eff (set_made r (r_made r) (remove_nat p (r_alive r))) (EPDel (if mem_nat p (r_alive r) then DDeleted else DNotFound))))) eqn:Et.
+    + destruct (mem_nat p (r_alive r)); [eapply Base; [| | |exact H]; reflexivity|].
+      apply (Unf _) in H; [exact H|reflexivity|reflexivity|apply pc_sum_refl].
+    + destruct (eff_wr _ (f_term pl)) eqn:Ew; try (eapply Base; [| | |exact H]; reflexivity).
+      assert (PS : pc_sum v (pc s) (option_map (fun p0 => cl_conds p0 (cl_term (norm v) true)) (pc s))).
+      { destruct (pc s) as [c|]; simpl; [|left; reflexivity]. right. eexists; eexists. split; [reflexivity|split; [reflexivity|]].
+        split; [right; reflexivity|auto]. }
+      destruct (mem_nat p (r_alive r)).
+      * injection H as <- _ _. simpl. repeat split; try reflexivity. exact PS.
+      * apply (Unf _) in H; [exact H|reflexivity|reflexivity|exact PS].
+  - destruct (r_nd r) as [nn|] eqn:En.
+    + eapply Base; [| | |exact H]; repeat bm; reflexivity.
+    + destruct (c_pid v) as [p|]; [|apply (Unf r); try reflexivity; [apply pc_sum_refl|exact H]].
+      destruct (f_pdel_err pl); [eapply Base; [| | |exact H]; reflexivity|].
+      cbv zeta in H.
+      destruct (c_term (r_im (add_eff (set_made r (r_made r) (remove_nat p (r_alive r))) (EPDel (if mem_nat p (r_alive r) then DDeleted else DNotFound))))) eqn:Et.
+      * destruct (mem_nat p (r_alive r)); [eapply Base; [| | |exact H]; reflexivity|].
+        apply (Unf _) in H; [exact H|reflexivity|reflexivity|apply pc_sum_refl].
+      * destruct (eff_wr _ (f_term pl)) eqn:Ew; try (eapply Base; [| | |exact H]; reflexivity).
+        assert (PS : pc_sum v (pc s) (option_map (fun p0 => cl_conds p0 (cl_term (norm v) true)) (pc s))).
+        { destruct (pc s) as [c|]; simpl; [|left; reflexivity]. right. eexists; eexists. split; [reflexivity|split; [reflexivity|]].
+          split; [right; reflexivity|auto]. }
+        destruct (mem_nat p (r_alive r)).
+        -- injection H as <- _ _. simpl. repeat split; try reflexivity. exact PS.
+        -- apply (Unf _) in H; [exact H|reflexivity|reflexivity|exact PS].
 Qed.
